@@ -558,6 +558,8 @@ func checkCmd(args []string) int {
 			ps = []pr{{"robustness probe v3", func() (string, bool) { return robustProbe(*repo, "v3/metric") }}, {"robustness probe v2", func() (string, bool) { return robustProbe(*repo, "v2/metric") }}}
 		case "C15":
 			ps = []pr{{"purity probe v3", func() (string, bool) { return purityProbe(*repo, "v3/metric") }}, {"purity probe v2", func() (string, bool) { return purityProbe(*repo, "v2/metric") }}, {"purity probe report", func() (string, bool) { return purityProbe(*repo, "v3/report") }}}
+		case "C20":
+			ps = []pr{{"table probe", func() (string, bool) { return tablesProbe(u, st, *repo) }}}
 		case "C17":
 			ps = []pr{{"report probe", func() (string, bool) { return reportProbe(st, *repo) }}}
 		case "C18":
